@@ -24,6 +24,8 @@ def _fit(d, mask, n_cuts, temperature, seed, gemini="mmd_ova", batch_size=None):
     kw = dict(n_clusters=3, gemini=gemini, n_cuts=n_cuts, temperature=temperature, max_iter=2, random_state=seed, learning_rate=0.05, batch_size=batch_size)
     if mask is not None:
         kw["feature_mask"] = np.array(mask, dtype=bool)
+    if batch_size is not None:            # estimator-protocol route on these cases: hyperparameters arrive through set_params
+        return Douglas().set_params(**kw).fit(X), X
     return Douglas(**kw).fit(X), X
 
 
